@@ -307,6 +307,8 @@ mod verif_order {
     harness!(bubble_sort_n2, 4, bubble_sort_contract::<2, 1, false>());
     harness!(bubble_sort_n3, 5, bubble_sort_contract::<3, 3, false>());
     harness!(bubble_sort_n4, 8, bubble_sort_contract::<4, 6, false>());
+    // bubble_sort_n5 (all u32 sequences) is NOT listed in suite.json: 1212 s / 6.5 GB, just above the
+    // 20 min limit for this suite; bubble_sort_n5_perm is the listed N = 5 instance (see REPORT.md)
     harness!(bubble_sort_n5, 12, bubble_sort_contract::<5, 10, false>());
     harness!(bubble_sort_n5_perm, 12, bubble_sort_contract::<5, 10, true>());
 
